@@ -2292,7 +2292,7 @@ def preprocess_file(
             def_name = None
             if_start = False
             # Opening conditional statements
-            if match.group(1).lower() == "if ":
+            if match.group(1).lower() == "if":
                 is_path = eval_pp_if(line[match.end(1) :], defs_tmp)
                 if_start = True
             elif match.group(1).lower() == "ifdef":
